@@ -84,6 +84,10 @@ def light_run(cfg):
     out = dict(calls=calls, marks=marks, of=of, cfg=cfg, error=None, history=None, space=sp)
     try:
         sbo = cfg['store_best_only']
+        if cfg.get('sbo_type') == 'np':
+            sbo = np.bool_(sbo)
+        elif cfg.get('sbo_type') == 'int':
+            sbo = int(sbo)
         out['history'] = task.start(store_best_only=sbo)
     except Exception as ex:
         out['error'] = type(ex).__name__ + ': ' + str(ex)[:120]
@@ -148,6 +152,42 @@ def oracles(prop, lr):
             if f == f and g == g and f != g:
                 issues.append(dict(what='light-final-fitness-untruthful', agent=i, stored=f, objective=g))
                 break
+    if prop == 'C03':
+        N, n = cfg['n_iter'], cfg['n_agents']
+        recs = getattr(h_, 'best_agent', [])
+        if len(recs) != N:
+            issues.append(dict(what='light-iteration-count', records=len(recs), expected=N))
+        lo_b, hi_b = runlevel.budget(cfg['kind'], n)
+        total = len(calls)
+        # the initial sweep, then per iteration at least one call per agent and at most the algorithm's budget
+        if total < n * (N + 1) or total > n + N * hi_b:
+            issues.append(dict(what='light-call-count', calls=total, min=n * (N + 1), max=n + N * hi_b))
+    if prop == 'C04':
+        N = cfg['n_iter']
+        keys = set(k for k in vars(h_) if k != 'store_best_only')
+        sbo = bool(cfg['store_best_only'])
+        want = {'best_agent', 'time'}
+        if not sbo:
+            want |= {'agents'}
+            if cfg['kind'] in runlevel.SWARM:
+                want |= {'local'}
+        if cfg['kind'] == 'GP':
+            want |= {'best_tree'}
+        if keys != want:
+            issues.append(dict(what='light-keys', have=sorted(keys), expected=sorted(want)))
+        for k in keys - {'time'}:
+            if len(getattr(h_, k)) != N:
+                issues.append(dict(what='light-length', key=k, records=len(getattr(h_, k)), expected=N))
+                break
+        tm = getattr(h_, 'time', None)
+        if not (isinstance(tm, list) and len(tm) == 1 and fnum(tm[0]) >= 0):
+            issues.append(dict(what='light-time', value=repr(tm)[:60]))
+        # the last record describes the space as the task left it
+        if 'agents' in keys and len(h_.agents) == N and N > 0:
+            last = h_.agents[-1]
+            if len(last) != len(sp.agents) or any(not np.array_equal(np.asarray(r_[0], dtype=float), np.asarray(a.position, dtype=float), equal_nan=True)
+                                                 for r_, a in zip(last, sp.agents)):
+                issues.append(dict(what='light-last-record-is-not-the-space'))
     if prop == 'C07':
         objs = list(sp.agents) + [sp.best_agent]
         for i in range(len(objs)):
